@@ -3,6 +3,7 @@ import Driver.Segment
 import Driver.Wal
 import Driver.Verifier
 import Driver.Migrate
+import Driver.Sizes
 open Driver
 
 def runStateless (f : String → String) : IO Unit := do
@@ -27,5 +28,6 @@ def main (args : List String) : IO UInt32 := do
   | ["wal"] => runStateful ({} : WalSt) walLine; return 0
   | ["verifier"] => runStateful ({} : VerSt) verLine; return 0
   | ["migrate"] => runStateless migLine; return 0
+  | ["sizes"] => runStateless sizesLine; return 0
   | ["segment"] => runStateful ({} : SegSt) segLine; return 0
   | _ => IO.eprintln "usage: driver <suite>"; return 2
